@@ -3,6 +3,7 @@ package main
 import (
 	"fmt"
 	"go/types"
+	"math/big"
 	"sort"
 	"strings"
 )
@@ -74,7 +75,7 @@ func (x *Exec) initialWorld(st *State) *World {
 	w.comps["time"] = Sym("w0_time", SInt)
 	w.comps["blocked"] = Sym("w0_blocked", ArraySort(SBytes, SBool))
 	st.assume(Ge(w.comps["height"], IntLit(0)))
-	st.assume(Le(w.comps["height"], BigLit(two63)))
+	st.assume(Le(w.comps["height"], BigLit(new(big.Int).Lsh(big.NewInt(1), 62)))) // A-ENV: block heights stay below 2^62
 	for _, fam := range x.prog.familyList() {
 		w.comps[fam.Name] = Sym("w0_"+fam.Name, fam.Sort)
 	}
